@@ -76,7 +76,40 @@ class EffectAnalysis:
                 self.method_index.setdefault(f.name.split('.')[-1], []).append(f)
         # backend aliases bound by dispatch sites: alias name (per function) -> candidate kernels
         self.iterations = 0
+        self.fparam_bindings: Dict[str, Dict[str, List[Tuple[FuncInfo, Set[str]]]]] = {}
+        self._collect_function_params()
         self._solve()
+
+    def _collect_function_params(self):
+        """function-valued parameters: callee qual -> param -> [(function, keywords pre-bound by partial)]"""
+        for g in self.funcs.values():
+            if g.is_pyx:
+                continue
+            partials: Dict[str, Tuple[FuncInfo, Set[str]]] = {}
+            calls = []
+            for n in ast.walk(g.node):
+                if isinstance(n, ast.Assign) and isinstance(n.value, ast.Call) and \
+                        isinstance(n.value.func, ast.Name) and n.value.func.id == 'partial' and n.value.args and \
+                        isinstance(n.value.args[0], ast.Name) and len(n.targets) == 1 and isinstance(n.targets[0], ast.Name):
+                    t = self.repo.resolve_symbol(g.module, n.value.args[0].id)
+                    if t:
+                        partials[n.targets[0].id] = (t, {k.arg for k in n.value.keywords if k.arg})
+                if isinstance(n, ast.Call) and isinstance(n.func, ast.Name):
+                    calls.append(n)
+            for n in calls:
+                tgt = self.repo.resolve_symbol(g.module, n.func.id)
+                if tgt is None:
+                    continue
+                callee_params = [a.arg for a in tgt.node.args.args]
+                bound = list(zip(callee_params, n.args)) + [(k.arg, k.value) for k in n.keywords if k.arg]
+                for pn, a in bound:
+                    if isinstance(a, ast.Name):
+                        if a.id in partials:
+                            self.fparam_bindings.setdefault(tgt.qual, {}).setdefault(pn, []).append(partials[a.id])
+                        else:
+                            t = self.repo.resolve_symbol(g.module, a.id)
+                            if t:
+                                self.fparam_bindings.setdefault(tgt.qual, {}).setdefault(pn, []).append((t, set()))
 
     # ------------------------------------------------------------------
     def _solve(self):
@@ -184,36 +217,8 @@ class _FuncWalker:
         self.block(self.fi.node.body, env)
 
     def _bind_function_params(self, target: FuncInfo):
-        """pair_distance_func / dist_function: collect the functions passed at the call sites."""
-        callee_params = [a.arg for a in target.node.args.args]
-        if not callee_params:
-            return
-        for g in self.ea.funcs.values():
-            if g.is_pyx:
-                continue
-            partials: Dict[str, Tuple[FuncInfo, Set[str]]] = {}
-            for n in ast.walk(g.node):
-                if isinstance(n, ast.Assign) and isinstance(n.value, ast.Call) and \
-                        isinstance(n.value.func, ast.Name) and n.value.func.id == 'partial' and n.value.args and \
-                        isinstance(n.value.args[0], ast.Name) and len(n.targets) == 1 and isinstance(n.targets[0], ast.Name):
-                    t = self.ea.repo.resolve_symbol(g.module, n.value.args[0].id)
-                    if t:
-                        partials[n.targets[0].id] = (t, {k.arg for k in n.value.keywords if k.arg})
-            for n in ast.walk(g.node):
-                if not (isinstance(n, ast.Call) and isinstance(n.func, ast.Name)):
-                    continue
-                tgt = self.ea.repo.resolve_symbol(g.module, n.func.id)
-                if tgt is None or tgt.qual != target.qual:
-                    continue
-                bound = list(zip(callee_params, n.args)) + [(k.arg, k.value) for k in n.keywords if k.arg]
-                for pn, a in bound:
-                    if isinstance(a, ast.Name):
-                        if a.id in partials:
-                            self.fvals.setdefault(pn, []).append(partials[a.id])
-                        else:
-                            t = self.ea.repo.resolve_symbol(g.module, a.id)
-                            if t:
-                                self.fvals.setdefault(pn, []).append((t, set()))
+        for pn, lst in self.ea.fparam_bindings.get(target.qual, {}).items():
+            self.fvals.setdefault(pn, []).extend(lst)
 
     # ------------------------------------------------------------------ expressions
     def origins(self, node: ast.AST, env) -> Set[object]:
